@@ -124,3 +124,9 @@ for _n, _file, _st in [("register_address", "ant-registers/src/address.rs", "Reg
 
 # ---- ant-node/src/quote.rs (C13): the window within which other nodes' quotes are compared with ours
 const("quote_time_gap_secs", "ant-node/src/quote.rs", r"let time_gap = Duration::from_secs\((\d+)\);")
+
+# ---- ant-networking/src/cmd.rs record_node_issue (C13): retention, list cap, rate limit, strikes
+const("issue_retention_secs", "ant-networking/src/cmd.rs", r"issue_vec\.retain\(\|\(_, timestamp\)\| timestamp\.elapsed\(\)\.as_secs\(\) < (\d+)\);")
+const("issue_list_cap", "ant-networking/src/cmd.rs", r"if issue_vec\.len\(\) == (\d+) \{")
+const("issue_rate_limit_secs", "ant-networking/src/cmd.rs", r"timestamp\.elapsed\(\)\.as_secs\(\) > (\d+)\n")
+const("issue_strikes", "ant-networking/src/cmd.rs", r"if issue_counts >= (\d+) \{")
